@@ -370,7 +370,7 @@ def writers(draw, depth: int = 0, enclosing: tuple[str, ...] = ()):
         boundary = "n%d-" % depth + boundary[:60]
     enc = list(enclosing) + [boundary]
     formdata = subtype == "form-data"
-    nparts = draw(st.integers(0, 5)) if depth == 0 else draw(st.integers(1, 3))  # RFC 2046: a multipart has >= 1 part
+    nparts = draw(st.integers(0, 5)) if depth == 0 else draw(st.integers(0, 3))  # (an empty MultipartWriter can be nested too: the writer produces it)
     parts = []
     for _ in range(nparts):
         if depth < 2 and not formdata and draw(st.integers(0, 5)) == 0:
